@@ -19,7 +19,7 @@ static const int NBv[HS] = { NB0, NB1 };
 int old_num[HS], old_list[HS][4];
 int GB, GP;                     /* ghost entry: bucket GB, position GP */
 const char *g_name_a, *g_name_b; int g_key_a, g_key_b;   /* ghost: hash keys of the two names in play */
-int IN_id[4], IN_del, IN_key_a, IN_key_b;
+int IN_id[6], IN_del, IN_key_a, IN_key_b;
 
 int ncmpio_Bernstein_hash(const char *str_name, int hsize)
 __CPROVER_requires(hsize >= 1)
@@ -96,7 +96,7 @@ void harness(void)
         tab[b].list = NBv[b] ? malloc(sizeof(int) * PNC_HLIST_GROWBY) : NULL;
         for (int p = 0; p < 4; p++) if (p < NBv[b]) {
             IN_id[n] = nondet_int(); __CPROVER_assume(IN_id[n] >= 0 && IN_id[n] < NOBJ);
-            for (int m = 0; m < 4; m++) if (m < n) __CPROVER_assume(IN_id[m] != IN_id[n]);   /* ids are a permutation of 0..NOBJ-1 */
+            for (int m = 0; m < 6; m++) if (m < n) __CPROVER_assume(IN_id[m] != IN_id[n]);   /* ids are a permutation of 0..NOBJ-1 */
             tab[b].list[p] = IN_id[n]; old_list[b][p] = IN_id[n]; n++;
         }
     }
